@@ -622,6 +622,35 @@ func ruleR22body(c *Ctx, gi *guardInfo) {
 			c.Ok(a.F, a.Sel, desc, "access to "+name+" holds "+mu, why, true)
 			continue
 		}
+		// a literal that is handed straight to a call (sort.Search, sort.Slice, once.Do ...) runs inside that call:
+		// what its enclosing function holds at the call, or what every caller of that function holds, is held
+		if a.F.Lit != nil && a.F.Parent != nil {
+			if pc, isCall := p.Parent(a.F.Lit).(*ast.CallExpr); isCall {
+				_, isGo := p.Parent(pc).(*ast.GoStmt)
+				_, isDefer := p.Parent(pc).(*ast.DeferStmt)
+				direct := false
+				for _, arg := range pc.Args {
+					if unparen(arg) == ast.Expr(a.F.Lit) {
+						direct = true
+					}
+				}
+				if direct && !isGo && !isDefer {
+					par := a.F.Parent
+					if pt, found := p.Graph(par).PointOf(pc); found {
+						if locksetsOf(p, par)[pt.Node()][refKey(info(par), a.Sel.X)+"."+mu] >= need {
+							c.Ok(a.F, a.Sel, desc, "access to "+name+" holds "+mu, "synchronous callback: the enclosing function holds "+mu+" at the call", true)
+							continue
+						}
+					}
+					b := *a
+					b.F = par
+					if okc, why := callersHold(p, &b, mu, need); okc {
+						c.Ok(a.F, a.Sel, desc, "access to "+name+" holds "+mu, "synchronous callback; "+why, true)
+						continue
+					}
+				}
+			}
+		}
 		wit := fmt.Sprintf("lock %s not held (%s) at the access; other accesses of %s hold it", mu, modeName(held), name)
 		if len(a.Held) > 0 {
 			var others []string
@@ -1286,11 +1315,8 @@ func ruleR25(c *Ctx) {
 					// activation? A container declared outside the loop that creates the closures and stored into
 					// inside that loop is shared by the closures of every earlier iteration, which read it from the
 					// tokens' goroutines while the loop writes it.
-					switch v.Type().Underlying().(type) {
-					case *types.Map, *types.Slice:
-					default:
-						continue
-					}
+					// (any type: a scalar that the loop reassigns is seen by every earlier closure with its last value —
+					// all tokens forked in one step would share the id drawn for the last of them)
 					var lp ast.Node
 					for l := range lits {
 						if x := innermostLoop(p, l.Lit); x != nil && !(v.Pos() >= x.Pos() && v.Pos() < x.End()) {
